@@ -716,6 +716,7 @@ def new_violations(ctx: Ctx):
 
 def run(ctx: Ctx):
     ctx.trusted += TRUSTED
+    ctx.max_reported = 8        # one replay per clause (the violations are ordered so that distinct clauses come first)
     ctx.assumptions += [
         "both paths of Observation.run_pipelines: with_dask=False, and with_dask=True under the synchronous scheduler "
         "(other schedulers, output files and seeding under dask belong to C07)",
@@ -763,7 +764,7 @@ def run(ctx: Ctx):
     done = set()
     for k, v in enumerate(first + rest):
         key = json.dumps(v.sig, sort_keys=True)
-        if key in done or len(done) >= 5 or any(core.finding_matches(e, v) for e in fs):
+        if key in done or len(done) >= ctx.max_reported or any(core.finding_matches(e, v) for e in fs):
             continue
         done.add(key)
         try:
